@@ -386,8 +386,32 @@ def gen_reproject(tier):
                 for opt in OPTS:
                     for backend in BACKENDS:
                         yield (src, dst, container, "crs+" + opt, backend, "yx", "spatial_ref")
+        # destination = a GeoBox in the SOURCE's CRS that is related to the source grid (same footprint mirrored, shifted,
+        # zoomed, padded, cropped ...), with and without an explicit destination nodata
+        for src in ("EPSG:4326", "EPSG:32633", "EPSG:3857"):
+            for container in ("da", "ds"):
+                for rel in SAME_RELATIONS:
+                    for backend in BACKENDS:
+                        for layout in ("yx", "tyx"):
+                            for nd in ("", "+dst_nodata"):
+                                yield (src, src, container, f"same:{rel}{nd}", backend, layout, "spatial_ref")
 
     return g
+
+
+SAME_RELATIONS = {
+    "identical": lambda A, H, W: (A, (H, W)),
+    "flipx": lambda A, H, W: (A * Affine.translation(W, 0) * Affine.scale(-1, 1), (H, W)),
+    "flipy": lambda A, H, W: (A * Affine.translation(0, H) * Affine.scale(1, -1), (H, W)),
+    "flipxy": lambda A, H, W: (A * Affine.translation(W, H) * Affine.scale(-1, -1), (H, W)),
+    "shift-int": lambda A, H, W: (A * Affine.translation(2, -1), (H, W)),
+    "shift-half": lambda A, H, W: (A * Affine.translation(0.5, 0.5), (H, W)),
+    "coarser2": lambda A, H, W: (A * Affine.scale(2), ((H + 1) // 2, (W + 1) // 2)),
+    "finer2": lambda A, H, W: (A * Affine.scale(0.5), (2 * H, 2 * W)),
+    "pad1": lambda A, H, W: (A * Affine.translation(-1, -1), (H + 2, W + 2)),
+    "crop1": lambda A, H, W: (A * Affine.translation(1, 1), (H - 2, W - 2)),
+    "transposed-footprint": lambda A, H, W: (A * Affine(0, 1, 0, 1, 0, 0), (W, H)),
+}
 
 
 def run_reproject(case):
@@ -417,6 +441,13 @@ def run_reproject(case):
         want = xx.odc.output_geobox(dst, **kwopt)
         default = xx.odc.output_geobox(dst)
         r.outcome += ":opt-differs" if want != default else ":opt-same-as-default"
+    elif how.startswith("same:"):
+        rel, _, nd = how[5:].partition("+")
+        A2, shp = SAME_RELATIONS[rel](G.affine, *G.shape)
+        want = GeoBox(shp, A2, dst)
+        target = want
+        if nd:
+            kwopt = dict(dst_nodata=-5.0)
     else:
         want = GeoBox((7, 6), G.to_crs(dst).affine * Affine.translation(1, 1), dst)
         target = want
@@ -460,7 +491,7 @@ def run_reproject(case):
             sd = o.odc.spatial_dims
             lx = o[sd[1]].values
             ex, _ = want.pix2wld(np.arange(want.shape[1]) + 0.5, np.zeros(want.shape[1]) + 0.5)
-            if not np.allclose(lx, ex, rtol=0, atol=1e-9 * (abs(ex).max() + 1)):
+            if want.affine.b == 0 and want.affine.d == 0 and not np.allclose(lx, ex, rtol=0, atol=1e-9 * (abs(ex).max() + 1)):  # rotated grids carry pixel labels
                 r.fail(f"reproject:{container}:labels", f"{what}: x labels {lx.tolist()} expected {ex.tolist()}")
     return r
 
